@@ -494,6 +494,28 @@ pub fn run_c11(out: &mut Out, seed: u64, thorough: bool) {
             }
         }
     }
+    // 2b. an undefined opcode reached in assembly-step mode with the key interrupt enabled (mask bit and EI) and the
+    //     key pressed before any one of the steps: the step must return (hang detection) whatever the request state
+    for undef in [vec![0xE0u8], vec![0x4C], vec![0xEF], vec![0xF0, 0x48], vec![0xF4, 0x70]] {
+        for press_at in 0..10usize {
+            let mut img: Vec<u8> = vec![0x20, 0x02, 0x2C, 0x02, 0xFB, 0xEF, 0x40, 0xFB, 0x01, 0x5F, 0xF9, 0x08, 0x02, 0x02];
+            img.extend_from_slice(&undef);
+            img.extend_from_slice(&[0x02, 0x02]);
+            let mut s = Sess::new();
+            run_line(out, &mut s, "new");
+            run_line(out, &mut s, &format!("load 16 255 {}", hexs(&img)));
+            run_line(out, &mut s, "mode A");
+            for k in 0..11usize {
+                if k == press_at {
+                    run_line(out, &mut s, "irq");
+                }
+                run_line(out, &mut s, "spec.asmstep");
+                run_line(out, &mut s, "clock");
+                run_line(out, &mut s, "d");
+            }
+            out.count("undefined-opcode-with-request");
+        }
+    }
     // 3. steps across the interrupt entry: programs with the key interrupt enabled that visit the end
     //    word and the `int:` word of every opcode page; the key is pressed at every clock cycle and a
     //    step is issued (on a copy) at each of the following edges
